@@ -101,21 +101,29 @@ def path_link_overlap_doc(rng):
     """GFA1 paths whose overlaps agree or not with the overlaps of the links."""
     ovs = ["*", "5M", "6M"]
     out = ["S\ta\t*", "S\tb\t*", "S\tc\t*"]
-    steps = [("a", "+", "b", "+"), ("b", "+", "c", rng.choice("+-"))]
+    mid = "a" if rng.random() < 0.25 else "b"       # (a+ -> a+: a self-link is listed on both of its ends)
+    steps = [("a", "+", mid, "+"), (mid, "+", "c", rng.choice("+-"))]
+    force = rng.random() < 0.3       # a '*' link under two paths which state different overlaps
     for f, fo, t, to in steps:
-        if rng.random() < 0.85:
-            ov = rng.choice(ovs)
+        if rng.random() < 0.85 or force:
+            ov = rng.choice(ovs) if not (force and (f, t) == ("a", mid)) else "*"
             if rng.random() < 0.3 and ov != "*":
                 out.append("L\t%s\t%s\t%s\t%s\t%s" % (t, S.inv(to), f, S.inv(fo), ov))
             else:
                 out.append("L\t%s\t%s\t%s\t%s\t%s" % (f, fo, t, to, ov))
-    for pn in ["p", "q"][:rng.randint(1, 2)]:
+    for pn in ["p", "q"][:2 if force else rng.randint(1, 2)]:
         n = rng.choice([2, 2, 3])
-        names = ["a+", "b+", "c" + steps[1][3]][:n]
-        if rng.random() < 0.3:
+        names = ["a+", mid + "+", "c" + steps[1][3]][:n]
+        if rng.random() < 0.3 and not force:
             pov = "*"
         else:
             pov = ",".join(rng.choice(ovs) for _ in range(n - 1))
+            if force:
+                pov = ",".join([{"p": "5M", "q": "6M"}[pn]] + pov.split(",")[1:])
+        if force and rng.random() < 0.3:
+            # (the same walk written from the other end)
+            names = [x[:-1] + S.inv(x[-1]) for x in reversed(names)]
+            pov = ",".join(S.cigar_complement(x) for x in reversed(pov.split(",")))
         out.append("P\t%s\t%s\t%s" % (pn, ",".join(names), pov))
     rng.shuffle(out)
     return out
